@@ -7,6 +7,10 @@ type nat =
 
 val option_map : ('a1 -> 'a2) -> 'a1 option -> 'a2 option
 
+type ('a, 'b) sum =
+| Inl of 'a
+| Inr of 'b
+
 val fst : ('a1 * 'a2) -> 'a1
 
 val snd : ('a1 * 'a2) -> 'a2
@@ -538,18 +542,19 @@ val n0_scan :
   (bool * bool) res
 
 val n0_nsm :
-  bclass list -> bclass list -> nat list -> bclass -> bclass list res
+  bool -> bclass list -> bclass list -> nat list -> bclass -> bclass list res
 
 val first_char_len : enc -> nat -> n list -> nat res
 
 val n0_pair :
-  enc -> (run list -> nat -> nat -> nat list res) -> n list -> irs -> bclass
-  list -> bclass -> bclass -> bclass list -> bracket_pair -> bclass list res
+  enc -> bool -> (run list -> nat -> nat -> nat list res) -> n list -> irs ->
+  bclass list -> bclass -> bclass -> bclass list -> bracket_pair -> bclass
+  list res
 
 val n0_pairs :
-  enc -> (run list -> nat -> nat -> nat list res) -> n list -> irs -> bclass
-  list -> bclass -> bclass -> bclass list -> bracket_pair list -> bclass list
-  res
+  enc -> bool -> (run list -> nat -> nat -> nat list res) -> n list -> irs ->
+  bclass list -> bclass -> bclass -> bclass list -> bracket_pair list ->
+  bclass list res
 
 val ni_consume :
   bclass list -> nat list -> nat list -> nat -> (((nat list * nat) * bclass
@@ -563,6 +568,10 @@ val n12_loop :
 val resolve_neutral_gen :
   enc -> datasource -> bool -> n list -> irs -> nat list -> bclass list ->
   bclass list -> bclass list res
+
+val resolve_neutral :
+  enc -> datasource -> n list -> irs -> nat list -> bclass list -> bclass
+  list -> bclass list res
 
 val resolve_levels : bclass list -> nat list -> nat list res
 
@@ -815,14 +824,16 @@ val seq_eos :
   bclass list -> nat option list -> nat -> nat list -> nat list -> bclass
 
 val resolve_classes :
-  bclass -> bclass -> bclass -> (n * bool) option list -> bclass list ->
-  bclass list
+  bclass -> bclass -> bclass -> (n * bool) option list -> bool list -> bclass
+  list -> bclass list
 
 val resolve_sequence :
   bclass list -> bclass list -> (n * bool) option list -> nat option list ->
   nat -> nat list -> nat list -> (nat * nat) list
 
 val assoc_nat : nat -> (nat * nat) list -> nat option
+
+val x_classes : bclass list -> bclass list -> bclass list
 
 val resolve_paragraph :
   bclass list -> (n * bool) option list -> nat option -> nat * nat option list
@@ -1062,3 +1073,57 @@ val iter16_program : bool -> n list -> bool list -> n option list res
 val c18_iter_judge : n list -> bool list -> n option list res -> bool
 
 val lI_check : tcase -> bool
+
+val seq_idx : irs -> nat list
+
+val live : bclass list -> nat -> bool
+
+val live_idx : bclass list -> irs -> nat list
+
+val at_ : 'a1 -> 'a1 list -> nat list -> 'a1 list
+
+val transparent_from : bclass list -> bclass list -> nat list -> bool
+
+val transparent : bclass list -> bclass list -> irs -> bool
+
+val bn_exact : bclass list -> bclass list -> irs -> bool
+
+val sq_weak_spec : bclass list -> bclass list -> irs -> bclass list
+
+val sq_ecls : nat list -> irs -> bclass
+
+val sq_neutral_spec :
+  datasource -> n list -> bclass list -> nat list -> bclass list -> irs ->
+  bclass list
+
+val nonempty : 'a1 list -> bool
+
+val runs_live : bclass list -> run list -> nat list list
+
+val nat_ll_eqb : nat list list -> nat list list -> bool
+
+val runs_bd7 :
+  bclass list -> nat option list -> bclass list -> nat list -> run list ->
+  bool
+
+type seq3 = (nat list * bclass) * bclass
+
+val seq3_eqb : seq3 -> seq3 -> bool
+
+val insert_seq3 : seq3 -> seq3 list -> seq3 list
+
+val sort_seq3 : seq3 list -> seq3 list
+
+val model_seq3 : bclass list -> irs list -> seq3 list
+
+val spec_seq3 : bclass list -> nat option list -> nat -> seq3 list
+
+val map2_implicit : nat list -> bclass list -> nat list
+
+val stage_check_seqs :
+  datasource -> n list -> bclass list -> nat list -> bclass list -> irs list
+  -> (nat, bclass list) sum
+
+val stage_check_para : datasource -> n list -> nat option -> nat
+
+val stage_check : tcase -> nat
